@@ -59,12 +59,17 @@ def build_all(log):
     Go harness from /repo's working tree.  Returns dict with build status."""
     status = {"coq_ok": True, "coq_log": "", "gen_ok": True, "gen_log": ""}
     with Lock():
-        # 1. translator: regenerate Gen/*.v from /repo
-        gen = os.path.join(VERIF, "tools", "gogen")
-        if os.path.isdir(gen):
+        # 1. translators: regenerate Gen/*.v from /repo's working tree
+        tools = os.path.join(VERIF, "tools")
+        os.makedirs(os.path.join(COQ, "Gen"), exist_ok=True)
+        for name in sorted(os.listdir(tools)) if os.path.isdir(tools) else []:
+            gen = os.path.join(tools, name)
+            if not name.startswith("gen_") or not os.path.isdir(gen):
+                continue
             p = sh(["go", "run", ".", "-repo", REPO, "-out", os.path.join(COQ, "Gen")], cwd=gen, env=GOENV, check=False)
-            status["gen_ok"] = p.returncode == 0
-            status["gen_log"] = (p.stdout or b"").decode("utf8", "replace")[-3000:]
+            if p.returncode != 0:
+                status["gen_ok"] = False
+            status["gen_log"] += "[%s] " % name + (p.stdout or b"").decode("utf8", "replace")[-1500:]
         # 2. coq
         if not os.path.exists(os.path.join(COQ, "Makefile")):
             sh("coq_makefile -f _CoqProject -o Makefile", cwd=COQ)
